@@ -158,11 +158,45 @@ Section HK.
       let a : elem := inl x0 in
       let b : elem := inr y0 in
       hk_loop fuel (union (uf_new [a; b]) a b, [(a, b)]).
+
+    (* the same loop, additionally recording the arguments of every call of `state_sets.union`
+       (newest first; hk_run_log returns them in call order).  A harness-side spy on
+       networkx's UnionFind sees exactly this sequence. *)
+    Definition hk_symbol_log (qa qb : elem) (sl : hk_state * list (elem * elem)) (a : nat)
+      : hk_state * list (elem * elem) :=
+      let (r1, u1) := find (fst (fst sl)) (estep qa a) in
+      let (r2, u2) := find u1 (estep qb a) in
+      if eqbE r1 r2 then ((u2, snd (fst sl)), snd sl)
+      else ((union u2 r1 r2, (r1, r2) :: snd (fst sl)), (r1, r2) :: snd sl).
+
+    Fixpoint hk_loop_log (fuel : nat) (sl : hk_state * list (elem * elem)) : res bool * list (elem * elem) :=
+      match snd (fst sl) with
+      | [] => (Ok true, snd sl)
+      | (qa, qb) :: rest =>
+        match fuel with
+        | 0 => (Err Fuel, snd sl)
+        | S f =>
+          if xorb (efinal qa) (efinal qb) then (Ok false, snd sl)
+          else hk_loop_log f (fold_left (hk_symbol_log qa qb) syms ((fst (fst sl), rest), snd sl))
+        end
+      end.
+
+    Definition hk_run_log (fuel : nat) (x0 : X) (y0 : Y) : res bool * list (elem * elem) :=
+      let a : elem := inl x0 in
+      let b : elem := inr y0 in
+      let (r, log) := hk_loop_log fuel ((union (uf_new [a; b]) a b, [(a, b)]), [(a, b)]) in
+      (r, rev log).
   End Loop.
 
   Definition hk_run_flat := hk_run uf_find uf_union.      (* proof model *)
   Definition hk_run_forest := hk_run fuf_find fuf_union.  (* networkx as coded *)
+  Definition hk_run_forest_log := hk_run_log fuf_find fuf_union.
 End HK.
+
+(* a tie-break given as the finite list of ordered root pairs on which the first root survives *)
+Definition tie_of_table {X Y} (eqbX : X -> X -> bool) (eqbY : Y -> Y -> bool) (tbl : list (elem X Y * elem X Y))
+  : elem X Y -> elem X Y -> bool :=
+  fun x y => existsb (fun p => eqbE X Y eqbX eqbY x (fst p) && eqbE X Y eqbX eqbY y (snd p)) tbl.
 
 (* ---- DFA.__eq__ ----
    states are `option nat`: None is what _get_next_current_state returns for a missing transition (and
@@ -177,6 +211,15 @@ Definition hk_eq_gen (tie : option nat + option nat -> option nat + option nat -
     (hk_run_forest (option nat) (option nat) (eqb_opt Nat.eqb) (eqb_opt Nat.eqb)
             (ostep A) (ostep B) (ofinal A) (ofinal B) tie syms
             (hk_fuel A B) (Some (d_init A)) (Some (d_init B))).
+
+(* with the sequence of union calls *)
+Definition hk_eq_log (tie : option nat + option nat -> option nat + option nat -> bool) (syms : list nat)
+           (A B : dfa) : res bool * list ((option nat + option nat) * (option nat + option nat)) :=
+  if same_syms A B
+  then hk_run_forest_log (option nat) (option nat) (eqb_opt Nat.eqb) (eqb_opt Nat.eqb)
+         (ostep A) (ostep B) (ofinal A) (ofinal B) tie syms
+         (hk_fuel A B) (Some (d_init A)) (Some (d_init B))
+  else (Err Mismatch, []).
 
 (* the instance on the wire: symbols in the order of the record, first root survives a tie *)
 Definition hk_eq (A B : dfa) : res bool := hk_eq_gen (fun _ _ => true) (d_syms A) A B.
@@ -200,5 +243,13 @@ Definition nfa_hk_eq_gen (tie : list nat + list nat -> list nat + list nat -> bo
               (nset_step A) (nset_step B) (nset_final_cl A) (nset_final_cl B) tie syms
               (nfa_hk_fuel A B) (nset_init A) (nset_init B)
   else Err Mismatch.
+
+Definition nfa_hk_eq_log (tie : list nat + list nat -> list nat + list nat -> bool) (syms : list nat)
+           (A B : nfa) : res bool * list ((list nat + list nat) * (list nat + list nat)) :=
+  if nsame_syms A B
+  then hk_run_forest_log (list nat) (list nat) (eqb_list Nat.eqb) (eqb_list Nat.eqb)
+         (nset_step A) (nset_step B) (nset_final_cl A) (nset_final_cl B) tie syms
+         (nfa_hk_fuel A B) (nset_init A) (nset_init B)
+  else (Err Mismatch, []).
 
 Definition nfa_hk_eq (A B : nfa) : res bool := nfa_hk_eq_gen (fun _ _ => true) (n_syms A) A B.
